@@ -38,6 +38,10 @@ var c07OrdinaryMuts = []string{
 var c07FundingMuts = []string{
 	"none", "funding:debit-wrong-party", "funding:debit-only-peer", "funding:second-suballoc", "funding:indexmap-added", "funding:amount+1", "funding:other-id",
 	"funding:touch-other-suballoc", "funding:actor-other", "sig:other-state",
+	// not an edit but a sequence: the funding update is held back, a payment to
+	// H goes first, then the funding update computed from the state before
+	// that payment is presented as the next version
+	"funding:stale-after-payment",
 }
 var c07SettleMuts = []string{
 	"none", "settle:credit-wrong-party", "settle:keep-suballoc", "settle:remove-other-too", "settle:touch-other-suballoc-id", "settle:touch-other-suballoc-indexmap",
@@ -96,6 +100,7 @@ type craft struct {
 	sub     *channel.State // funded/settled channel's state as H holds it
 	subID   channel.ID
 	accSeen bool // H sent ChannelUpdateAcc for (ch, version)
+	pending bool // a multi-message craft is still under way
 }
 
 type c07state struct {
@@ -252,6 +257,13 @@ func (c *c07state) intercept(from, to string, e *wire.Envelope) (*wire.Envelope,
 				cr.subID = la.ID
 			}
 		}
+	}
+	if cr.mut == "funding:stale-after-payment" {
+		c.mu.Lock()
+		cr.pending = true
+		c.mu.Unlock()
+		go c.staleFunding(cr, m, before.Clone())
+		return e, false // the honest funding update never arrives
 	}
 	c.mutate(cr, m, before)
 	cr.msg = m
@@ -496,8 +508,71 @@ func (c *c07state) mutate(cr *craft, m *client.ChannelUpdateMsg, before *channel
 
 // settle waits for the outcome of the armed craft and evaluates the oracle.
 // It returns false when the run has to stop (A's client is out of sync with H).
+// staleFunding: A pays H one to ten coins in the parent (an ordinary update,
+// which H's handler accepts), then presents the funding update it had computed
+// from the state before that payment as the next version. Each balance of that
+// update is below the current one by something else than the participant's
+// share of the sub-channel.
+func (c *c07state) staleFunding(cr *craft, honest *client.ChannelUpdateMsg, before *channel.State) {
+	p, s := c.p, c.p.s
+	A, H := p.n[0], p.n[1]
+	defer func() {
+		c.mu.Lock()
+		cr.pending = false
+		c.mu.Unlock()
+	}()
+	aIdx := int(p.chans[0][0].Idx())
+	pay := before.Clone()
+	pay.Version++
+	x := big.NewInt(int64(1 + cr.r.Intn(10)))
+	if pay.Balances[0][aIdx].Cmp(x) < 0 {
+		return
+	}
+	pay.Balances[0][aIdx].Sub(pay.Balances[0][aIdx], x)
+	pay.Balances[0][1-aIdx].Add(pay.Balances[0][1-aIdx], x)
+	send := func(st *channel.State, key string) bool {
+		m := &client.ChannelUpdateMsg{ChannelUpdate: client.ChannelUpdate{State: st, ActorIdx: channel.Index(aIdx)}, Sig: signAs(A, st)}
+		return p.w.Bus.Inject(&wire.Envelope{Sender: A.Wire, Recipient: H.Wire, Msg: m}, s.Delay(key, 0, 100*time.Microsecond)) == nil
+	}
+	if !send(pay, "inject:stale-pay") {
+		return
+	}
+	enc := gen.EncodeState(pay)
+	got := false
+	for i := 0; i < 400 && !got; i++ {
+		time.Sleep(50 * time.Microsecond)
+		if l := H.Rec.EnabledOf(cr.ch); len(l) > 0 && bytes.Equal(l[len(l)-1].Enc, enc) {
+			got = true
+		}
+	}
+	if !got {
+		s.Count("probe.stale_payment_not_accepted", 1)
+		return
+	}
+	st := honest.State.Clone()
+	st.Version = pay.Version + 1
+	msg := &client.ChannelUpdateMsg{ChannelUpdate: client.ChannelUpdate{State: st, ActorIdx: channel.Index(aIdx)}, Sig: signAs(A, st)}
+	if p.w.Bus.Inject(&wire.Envelope{Sender: A.Wire, Recipient: H.Wire, Msg: msg}, s.Delay("inject:stale-funding", 0, 100*time.Microsecond)) != nil {
+		return
+	}
+	c.mu.Lock()
+	cr.before, cr.msg, cr.sigOK, cr.fired = pay, msg, true, true
+	c.mu.Unlock()
+	s.Count("fault.craft."+cr.mut, 1)
+	s.Event("ADV", "adv:craft", fmt.Sprintf("funding %s on %s v%d after a payment of %v", cr.mut, s.ChanName(cr.ch), st.Version, x))
+}
+
 func (c *c07state) settle(step int) bool {
 	p, s := c.p, c.p.s
+	for i := 0; i < 100; i++ { // a multi-message craft finishes first
+		c.mu.Lock()
+		pend := c.cr != nil && c.cr.pending
+		c.mu.Unlock()
+		if !pend {
+			break
+		}
+		time.Sleep(time.Millisecond)
+	}
 	time.Sleep(50 * time.Millisecond) // quiescence
 	c.mu.Lock()
 	cr := c.cr
